@@ -45,6 +45,19 @@ pub fn vtlpmap_default<T: Clone + Eq + Hash>() -> (r: VTLPMap<T>)
 	ensures r.inv(), r.list@.len() == 0
 { VTLPMap { list: Vec::new(), map: HashMap::new() } }
 
+// a one-byte key: the byte 0x1a decodes to (field 3, wire type 2), 0x22 to (field 4, wire type 2)
+pub proof fn lemma_key_byte(d: Seq<u8>, p: int)
+	requires 0 <= p < d.len()
+	ensures d[p] == 0x1a ==> d[p] & 0x80 == 0 && ((dec_groups(d, p, 1) >> 3) as u32 == 3 && (dec_groups(d, p, 1) & 0x07) as u8 == 2),
+		d[p] == 0x22 ==> d[p] & 0x80 == 0 && ((dec_groups(d, p, 1) >> 3) as u32 == 4 && (dec_groups(d, p, 1) & 0x07) as u8 == 2),
+{
+	let b = d[p];
+	assert(dec_groups(d, p, 0) == 0);
+	assert(dec_groups(d, p, 1) == 0u64 | (((b as u64) & 0x7F) << 0u64));
+	assert(b == 0x1a ==> b & 0x80 == 0 && (((0u64 | (((b as u64) & 0x7F) << 0u64)) >> 3) as u32 == 3) && ((0u64 | (((b as u64) & 0x7F) << 0u64)) & 0x07) as u8 == 2) by (bit_vector);
+	assert(b == 0x22 ==> b & 0x80 == 0 && (((0u64 | (((b as u64) & 0x7F) << 0u64)) >> 3) as u32 == 4) && ((0u64 | (((b as u64) & 0x7F) << 0u64)) & 0x07) as u8 == 2) by (bit_vector);
+}
+
 impl VectorTileLayer {
 //@extract fn file="versatiles_geometry/src/vector_tile/layer.rs" scope="impl VectorTileLayer" name="read"
 //@rewrite "reader: &mut dyn ValueReader<'_, LE>" => "reader: &mut ValueReaderSlice" R6
@@ -69,6 +82,18 @@ impl VectorTileLayer {
 				property_manager.key.list@ == keys_seen, property_manager.val.list@ == vals_seen,
 				keys_seen.len() + vals_seen.len() <= reader.cursor.pos,
 			decreases reader.len - reader.cursor.pos
+//@loopstart 1
+			let ghost kl0 = property_manager.key.list@;
+			let ghost vl0 = property_manager.val.list@;
+			let ghost first = reader.cursor.data@[reader.cursor.pos as int];
+			proof { lemma_key_byte(reader.cursor.data@, reader.cursor.pos as int); }
+//@loopend 1
+			// MVT 2.1 §4.1: field 3 (wire type 2, key byte 0x1a) is one entry of `keys`, field 4 (key byte 0x22) one entry of `values`:
+			// every such record appends exactly one table entry at the next position — also when an equal entry exists already
+			proof {
+				assert(first == 0x1a ==> property_manager.key.list@.len() == kl0.len() + 1 && property_manager.key.list@.subrange(0, kl0.len() as int) =~= kl0 && property_manager.val.list@ == vl0);
+				assert(first == 0x22 ==> property_manager.val.list@.len() == vl0.len() + 1 && property_manager.val.list@.subrange(0, vl0.len() as int) =~= vl0 && property_manager.key.list@ == kl0);
+			}
 //@after "property_manager.push_key(reader.read_pbf_absstr()?);"
 					proof { keys_seen = keys_seen.push(property_manager.key.list@.last()); }
 //@after "property_manager.push_val( geo_value_read(&mut reader.get_pbf_sub_reader()?)?, );"
